@@ -81,6 +81,10 @@ CHECKS = {
          "All 259 reachable abstract states over three records are reached on the real ResourceRecordManager; each of the 23 operations is executed out of every state and the result observed immediately and after 1, 2 and 3 more seconds (so hidden remaining lifetimes are compared, not assumed) with the authoritative, authoritative+subdomain, cached and combined filters at three names: a cached record is returned exactly while its TTL (1 s with cache-flush) since last reception has not elapsed, re-reception restarts it, authoritative records never expire, are never returned by cache-only queries and are not demoted by a network copy. The thorough tier runs all 6.4e6 histories of length 5 without deduplication. Traces with TTL 1/2, cache-flush and refresh are replayed with real 1.04 s sleeps and no hook and must give the same observations.",
          "The virtual clock shifts stored deadlines; its agreement with the real clock is checked by the real-sleep traces. Paths slower than 250 ms are re-run and a violation is reported only if it reproduces.",
          "DESIGN.md section 3, C20"),
+ "C14": ("exhaustive enumeration of a datagram alphabet (all buffers up to length 7 (10) over {00,80,ff}, every cut and byte perturbation of benign and hostile seed datagrams, hostile-label queries and responses, 9000-byte datagrams) x 3 store states x {fresh, after benign traffic} through handling pipelines composed from the real functions under the real RwLock, each followed by benign traffic; plus a socket-level replay of representatives against running services",
+         "Every datagram of the alphabet is handled by the responder, sync discovery (with and without a discovery channel), async ingest and one-shot resolver pipelines — the real header peek, parse, build_reply / add_response_to_resources and serialisation in the order each receive loop calls them, with the store behind the real RwLock — against an empty store, a store as ServiceDiscovery::new builds it and one with a cached peer, fresh and after benign traffic. After each: no panic escaped, the lock is not poisoned, get_known_services is computable, a benign query is answered exactly as by an untouched store, a benign announcement is still discovered, and every reply parses. Then representatives of every datagram class are sent over loopback multicast to a running SimpleMdnsResponder and sync ServiceDiscovery, each followed by probe queries that must be answered and by get_known_services() on the application thread.",
+         "The pure pipelines mirror the loop bodies; the loops themselves are covered by the socket stage on representatives only. If loopback multicast is unavailable the socket stage is skipped and recorded as such in the evidence (the verdict then rests on the pipelines).",
+         "DESIGN.md section 3, C14"),
 }
 NOT_YET = {}
 
